@@ -54,7 +54,7 @@ Proof. exact fixed_merge_requires_equal_arguments. Qed.
 Print Assumptions merge_fixed_requires_equal_arguments.
 
 Theorem merge_fixed_keeps_witness : merge_fields witness = witness /\ spec_report S0 witness None = [R_merge].
-Proof. split. exact fixed_keeps_witness. exact witness_rule. Qed.
+Proof. exact (conj fixed_keeps_witness witness_rule). Qed.
 Print Assumptions merge_fixed_keeps_witness.
 
 (* the hypotheses of (1) are satisfiable by a non-trivial operation (variables, a fragment on an
@@ -62,6 +62,4 @@ Print Assumptions merge_fixed_keeps_witness.
 Example spec_valid_exec_safe_nontrivial :
   schema_wf_b S0 = true /\ universe_wf_b S0 U0 = true /\ spec_valid_b S0 example_doc None = true /\
   rs_errs (execute_default S0 U0 Mono example_doc None (JObj [])) = [].
-Proof.
-  split; [exact example_schema_wf|]. split; [exact example_universe_wf|]. split; [exact example_valid|exact example_executes].
-Qed.
+Proof. exact (conj example_schema_wf (conj example_universe_wf (conj example_valid example_executes))). Qed.
